@@ -1478,3 +1478,30 @@ T('cache-ownership-flag-from-a-try', ['C01', 'C05', 'C06'],
 B('cache-ownership-flag-defaults-to-true', ['C01', 'C06'], ['C01-R7', 'C06-R3'],
   (A, "                        if events.get(key, (None, None))[1] is event:\n                            del events[key]\n",
       "                        try:\n                            still_ours = events[key][1] is event\n                        except KeyError:\n                            still_ours = True\n                        if still_ours:\n                            events.pop(key)\n"))
+
+def _wait_record_edits(block_expr: str):
+    rec = ("class _Wait(NamedTuple):\n    blocking: bool\n    timeout: float\n    started: float\n\n    def block_in_call(self) -> Any:\n"
+           f"        return {block_expr}\n\n    def expired(self) -> bool:\n        return 0 <= self.timeout < time.time() - self.started\n\n\n")
+    return [
+        (F, "from typing import Union, Optional, TypeVar, ClassVar, Any\n", "from typing import Union, Optional, TypeVar, ClassVar, NamedTuple, Any\n"),
+        (F, "class BaseFileLock(abc.ABC):\n", rec + "class BaseFileLock(abc.ABC):\n"),
+        (F, "        start_time = time.time()\n", "        wait = _Wait(blocking, timeout, started=time.time())\n"),
+        (F, "                self._acquire(block=blocking and timeout < 0)\n", "                self._acquire(block=wait.block_in_call())\n"),
+        (F, "                elif not blocking:\n", "                elif not wait.blocking:\n"),
+        (F, "                elif 0 <= timeout < time.time() - start_time:\n", "                elif wait.expired():\n"),
+    ]
+T('lock-wait-state-in-a-record-with-methods', ['C12', 'C02'], *_wait_record_edits('self.blocking and self.timeout < 0'))
+B('lock-wait-record-blocks-in-the-call-whenever-blocking', ['C12'], ['C12-R6'], *_wait_record_edits('self.blocking'))
+
+def _ack_cm_edits(safe: bool):
+    cm = ("    @contextmanager\n    def _acknowledged(self) -> Any:\n" +
+          ("        try:\n            yield\n        except BaseException:  # noqa\n            raise\n        else:\n            self.q.task_done()\n\n" if safe else
+           "        try:\n            yield\n        finally:\n            self.q.task_done()\n\n"))
+    return [
+        (A, "from itertools import islice\n", "from contextlib import contextmanager\nfrom itertools import islice\n"),
+        (A, "            try:\n                await _load_inputs(await self._getting)\n            except (aio.TimeoutError, aio.CancelledError):\n                await self._run_func(inputs)\n            else:\n                self.q.task_done()\n",
+            "            try:\n                with self._acknowledged():\n                    await _load_inputs(await self._getting)\n            except (aio.TimeoutError, aio.CancelledError):\n                await self._run_func(inputs)\n"),
+        (A, "    async def _run_func(self, inputs: Set[T]) -> None:\n", cm + "    async def _run_func(self, inputs: Set[T]) -> None:\n"),
+    ]
+T('buf-acknowledge-in-a-context-manager', ['C03', 'C07', 'C08'], *_ack_cm_edits(True))
+B('buf-acknowledge-context-manager-acks-timeouts-too', ['C07'], ['C07-W3'], *_ack_cm_edits(False))
